@@ -107,6 +107,38 @@ def render(out, struct, words):
     return {S_NUM: "1. ", S_BULLET: "- ", S_MD: "# ", S_PLAIN: ""}[struct] + body
 
 
+# Scales an agent may report on.  Nothing in the surveillance API confines a confidence to 0..1 (`record_observation(
+# confidence: float)`, `MHCPeptide.confidence_mean` are unvalidated floats): percent, log-probability, logit, a constant
+# offset; latencies in milliseconds, lengths in tokens or bytes, error "rates" in percent.  A scale is
+# (name, confidence factor, confidence offset, time factor, length factor, error-rate factor); all dyadic.
+SCALES = [("unit", F(1), F(0), F(1), F(1), F(1)),
+          ("over", F(1), F(1, 4), F(1), F(1), F(1)),            # 0.75 .. 1.19: bounds straddle 1
+          ("percent", F(100), F(0), F(1), F(1), F(1)),
+          ("logprob", F(1), F(-1), F(1), F(1), F(1)),           # -0.5 .. -0.06: bounds straddle 0 from below
+          ("logit", F(8), F(-4), F(1), F(1), F(1)),
+          ("negpct", F(-100), F(0), F(1), F(1), F(1)),
+          ("ms", F(1), F(0), F(1000), F(1), F(1)),
+          ("errpct", F(1), F(0), F(1), F(1), F(100)),
+          ("kilo", F(100), F(0), F(1000), F(1024), F(100))]
+UNIT = SCALES[0]
+
+
+def pick_scale(rng):
+    """half of all histories on the customary 0..1 scale, half on another one"""
+    return UNIT if rng.random() < 0.5 else rng.choice(SCALES[1:])
+
+
+def to_scale(sc, p):
+    """fingerprint p (drawn on the unit grid) as the same agent would report it on scale sc"""
+    _, cm, ca, tm, lm, em = sc
+    return (p[0] * lm, p[1] * lm, p[2] * tm, p[3] * tm, p[4] * cm + ca, p[5] * abs(cm), p[6], p[7], p[8] * em, p[9])
+
+
+def conf_threat(sc, base):
+    """a confidence far below what the agent showed in training, on its own scale"""
+    return F(0) if sc[0] == "unit" else base[4] - abs(sc[1]) * F(3, 4)
+
+
 REASONS = {"1": "reason", "0": "", "n": None, "z": 0, "l": [], "o": object(), "s0": "0"}
 
 
@@ -264,6 +296,19 @@ class C17(Prop):
             response_time_bounds=(float(pr[2]), float(pr[3])), confidence_bounds=(float(pr[4]), float(pr[5])),
             error_rate_max=float(pr[6]), valid_vocabulary_hashes={f"v{x}" for x in pr[7]},
             valid_structure_hashes={f"s{x}" for x in pr[8]}, canary_accuracy_min=float(pr[9]))
+
+    def given_profile(self, st, agent, pr):
+        """a BaselineProfile constructed from the bounds on a protocol line; the oracle judges "inside the baseline" by the
+        bounds the operator GAVE for as long as the watcher holds this very object"""
+        prof = self.mk_profile(agent, pr)
+        st["given"][id(prof)] = (prof, pr)
+        return prof
+
+    def view_profile(self, st, prof):
+        g = st["given"].get(id(prof))
+        if g is not None and g[0] is prof:
+            return g[1]
+        return self.read_profile(prof)
 
     def hid(self, h):
         """opaque hash string -> small integer (equality is all that matters)"""
@@ -458,7 +503,7 @@ class C17(Prop):
         obs, extra = [], []
         st = {"tc": None, "treg": TR.RegulatoryTCell(rules=[], stability_threshold=100),
               "th": TH.Thymus(min_training_samples=10, tolerance=2.0, variance_threshold=0.5), "samples": [],
-              "ims": None, "trained_sets": {}, "sigkeys": {}, "cell": None}
+              "ims": None, "trained_sets": {}, "sigkeys": {}, "cell": None, "given": {}}
 
         def ims():
             if st["ims"] is None:
@@ -480,7 +525,7 @@ class C17(Prop):
                 op = t[0] if t else ""
                 if op == "tcell" and len(t) == 13:
                     pr = prof_parse(t[3:13])
-                    st["tc"] = TC.TCell(profile=self.mk_profile("a", pr), repeated_anomaly_threshold=int(t[1]),
+                    st["tc"] = TC.TCell(profile=self.given_profile(st, "a", pr), repeated_anomaly_threshold=int(t[1]),
                                         anergy_threshold=int(t[2]))
                     o = "ok"
                 elif op == "inspect" and len(t) == 11:
@@ -488,7 +533,7 @@ class C17(Prop):
                         o = "no-tcell"
                     else:
                         p = fp_parse(t[1:])
-                        ex = {"kind": "tinspect", "fp": p, "profile": self.read_profile(st["tc"].profile),
+                        ex = {"kind": "tinspect", "fp": p, "profile": self.view_profile(st, st["tc"].profile),
                               "rep": st["tc"].repeated_anomaly_threshold, "anergy_thr": st["tc"].anergy_threshold}
                         r = st["tc"].inspect(self.mk_pep("a", p))
                         o = self.show_resp(r) + " " + self.show_t(st["tc"])
@@ -500,7 +545,7 @@ class C17(Prop):
                     o = tstep(lambda tc: setattr(tc, "repeated_anomaly_threshold" if t[1] == "rep" else "anergy_threshold",
                                                  int(t[2])))
                 elif op == "tset" and len(t) == 12 and t[1] == "profile":
-                    o = tstep(lambda tc: setattr(tc, "profile", self.mk_profile("a", prof_parse(t[2:12]))))
+                    o = tstep(lambda tc: setattr(tc, "profile", self.given_profile(st, "a", prof_parse(t[2:12]))))
                 elif op == "treset" and len(t) == 1:
                     o = tstep(lambda tc: tc.reset())
                 elif op == "tresetfa" and len(t) == 1:
@@ -622,7 +667,7 @@ class C17(Prop):
                     S = ims()
                     tc = S.tcells.get(a)
                     disp = S.displays.get(a)
-                    prof_view = self.read_profile(tc.profile) if tc is not None else None
+                    prof_view = self.view_profile(st, tc.profile) if tc is not None else None
                     if prof_view is not None and a in st["trained_sets"] and isinstance(disp, self.DISP.MHCDisplay):
                         vs_, ss_ = st["trained_sets"][a]         # hashes stand for the sets they were computed from
                         prof_view = prof_view[:7] + ([vs_], [ss_], prof_view[9])
@@ -709,7 +754,7 @@ class C17(Prop):
                     a = f"a{int(t[1])}"
                     tc = ims().tcells.get(a)
                     if tc is not None:
-                        tc.profile = self.mk_profile(a, prof_parse(t[3:13]))
+                        tc.profile = self.given_profile(st, a, prof_parse(t[3:13]))
                         st["trained_sets"].pop(a, None)
                     o = "ok"
                 elif op == "gset" and len(t) >= 2:
@@ -967,15 +1012,23 @@ class C17(Prop):
     G64 = [F(k, 64) for k in (1, 2, 8, 16, 32, 64, 128, 512)]
     FLAGS = ["1", "1", "1", "1", "0", "n", "z", "l", "o", "s0"]     # reasons: strings, None, 0, [], an object, "0"
 
-    def gen_profile(self, rng):
-        def band(lo_choices, widths):
+    def gen_profile(self, rng, sc=None):
+        """a baseline on the scale sc (default: drawn): bounds are not confined to 0..1"""
+        if sc is None:
+            sc = pick_scale(rng)
+        _, cm, ca, tm, lm, em = sc
+
+        def band(lo_choices, widths, mul=F(1), add=F(0)):
             lo = rng.choice(lo_choices)
             w = rng.choice(widths)
-            return (lo, lo + w) if rng.random() < 0.93 else (lo + w + F(1, 4), lo)   # rarely inverted: nothing fits
-        l = band([F(0), F(10), F(40), F(100)], [F(0), F(1, 4), F(5), F(20)])
-        tt = band([F(0), F(1, 2), F(2)], [F(0), F(1, 64), F(1, 2), F(3)])
-        c = band([F(0), F(1, 2), F(3, 4)], [F(0), F(1, 8), F(1, 4)])
-        emax = rng.choice([F(0), F(1, 16), F(1, 8), F(1, 2)])
+            a, b = sorted((lo * mul + add, (lo + w) * mul + add))
+            return (a, b) if rng.random() < 0.93 else (b + F(1, 4), a)   # rarely inverted: nothing fits
+        l = band([F(0), F(10), F(40), F(100)], [F(0), F(1, 4), F(5), F(20)], lm)
+        tt = band([F(0), F(1, 2), F(2)], [F(0), F(1, 64), F(1, 2), F(3)], tm)
+        c = band([F(0), F(1, 2), F(3, 4)], [F(0), F(1, 8), F(1, 4)], cm, ca)
+        emax = rng.choice([F(0), F(1, 16), F(1, 8), F(1, 2)]) * em
+        if rng.random() < 0.1:
+            emax = rng.choice([F(1), F(3, 2), F(2), F(100)])          # a maximum that is not a probability
         vs = rng.choice([[1], [1, 2], [1, 2, 3], []])
         ss = rng.choice([[1], [1, 2], []])
         cmin = rng.choice([F(0), F(1, 4), F(1, 2), F(3, 4), F(9, 10), F(1)])
@@ -1102,6 +1155,7 @@ class C17(Prop):
         k = rng.choice([0, 1, 2, 3, 5, 10, 12])
         base = (F(rng.choice([0, 8, 40, 200])), F(1, 4), F(rng.choice([1, 2, 8]), 4), F(1, 64), F(3, 4), F(1, 32))
         spread = rng.choice([F(0), F(1, 4), F(2), F(30)])
+        sc = pick_scale(rng)
         samples = []
         identical = rng.random() < 0.25
         for i in range(k):
@@ -1113,7 +1167,7 @@ class C17(Prop):
             s = (lm, rng.choice([F(0), F(1, 64), F(1, 4), F(3)]), base[2] + j() / 8, rng.choice([F(0), F(1, 128), F(1, 8)]),
                  base[4] + j() / 32, rng.choice([F(0), F(1, 64), F(1, 16)]), rng.choice([1, 1, 2]), rng.choice([1, 1, 2]),
                  rng.choice([F(0), F(1, 64), F(1, 16), F(1, 4)]), rng.choice([None, F(1), F(7, 8), F(5, 8)]))
-            samples.append(s)
+            samples.append(to_scale(sc, s))
         for s in samples:
             lines.append("sample " + " ".join(fp_tokens(s)))
 
@@ -1155,29 +1209,31 @@ class C17(Prop):
         d = F(x).denominator
         return d & (d - 1) == 0 and d <= 2 ** 40 and abs(F(x).numerator) < 2 ** 50
 
-    def grid_fp(self, rng, vocab=None):
+    def grid_fp(self, rng, vocab=None, sc=UNIT):
         """a fingerprint on the coarse dyadic grid the pipeline family uses (bounds trained from it are float-exact or
-        far from every grid point)"""
-        return (F(rng.choice([0, 10, 40, 41, 100])), rng.choice([F(0), F(1, 128), F(1, 4), F(2)]),
+        far from every grid point), reported on the scale sc"""
+        return to_scale(sc, (F(rng.choice([0, 10, 40, 41, 100])), rng.choice([F(0), F(1, 128), F(1, 4), F(2)]),
                 F(rng.choice([1, 2, 4, 12]), 4), rng.choice([F(0), F(1, 128), F(1, 8)]),
                 F(rng.choice([32, 48, 56, 60]), 64), rng.choice([F(0), F(1, 64), F(1, 16)]),
                 vocab if vocab is not None else rng.choice([1, 1, 2, 3]), rng.choice([1, 1, 2]),
-                rng.choice([F(0), F(0), F(1, 64), F(1, 16), F(1, 4)]), rng.choice([None, None, F(1), F(7, 8), F(5, 8), F(1, 4)]))
+                rng.choice([F(0), F(0), F(1, 64), F(1, 16), F(1, 4)]), rng.choice([None, None, F(1), F(7, 8), F(5, 8), F(1, 4)])))
 
-    def drift(self, rng, base, pr, tol):
+    def drift(self, rng, base, pr, tol, sc=UNIT):
         """a later window of the same agent: same fingerprint, or moved across one or more trained bounds"""
         kind = rng.choice(["same", "same", "time", "len", "conf", "err", "vocab", "struct", "canary", "multi", "inside"])
+        _, cm, ca, tm, lm, em = sc
         q = list(base)
         if kind == "inside":
             q[2] = base[2] + rng.choice([F(0), F(1, 64), -F(1, 64)])
         if kind in ("time", "multi"):
-            q[2] = base[2] + rng.choice([F(4), F(16), F(8)])
+            q[2] = base[2] + rng.choice([F(4), F(16), F(8)]) * tm
         if kind in ("len", "multi"):
-            q[0] = base[0] + rng.choice([F(50), F(500)])
+            q[0] = base[0] + rng.choice([F(50), F(500)]) * lm
         if kind in ("conf", "multi"):
-            q[4] = max(F(0), base[4] - rng.choice([F(1, 4), F(1, 2)]))
+            d = rng.choice([F(1, 4), F(1, 2)])
+            q[4] = max(F(0), base[4] - d) if sc[0] == "unit" else base[4] - d * abs(cm)
         if kind == "err":
-            q[8] = rng.choice([F(1, 2), F(3, 4), F(1)])
+            q[8] = rng.choice([F(1, 2), F(3, 4), F(1)]) * em
         if kind == "vocab":
             q[6] = rng.choice([5, 6])
         if kind == "struct":
@@ -1198,10 +1254,12 @@ class C17(Prop):
         agents = [0, 1] if rng.random() < 0.7 else [0, 1, 2]
         base, prof = {}, {}
         shared_vocab = rng.random() < 0.5
+        sc0 = pick_scale(rng)
+        scs = {a: (sc0 if rng.random() < 0.8 else pick_scale(rng)) for a in agents}    # agents may report on different scales
         for a in agents:
             if rng.random() < 0.95:
                 lines.append(f"reg {a}")
-            base[a] = self.grid_fp(rng, vocab=1 if shared_vocab else None)
+            base[a] = self.grid_fp(rng, vocab=1 if shared_vocab else None, sc=scs[a])
             lines.append(f"show {a} " + " ".join(fp_tokens(base[a])))
             if rng.random() < 0.9:
                 lines.append(f"train {a}")
@@ -1212,7 +1270,7 @@ class C17(Prop):
             a = rng.choice(agents)
             x = rng.random()
             if x < 0.34:
-                q = self.drift(rng, base[a], prof.get(a), tol)
+                q = self.drift(rng, base[a], prof.get(a), tol, scs[a])
                 if a in prof and not self.clear_of_boundaries(prof[a], q, True):
                     self.skipped_boundary += 1
                     continue
@@ -1236,7 +1294,9 @@ class C17(Prop):
             elif x < 0.88:
                 # retrain on whatever the agent shows now, then inspect the same window
                 if rng.random() < 0.5:
-                    base[a] = self.grid_fp(rng, vocab=base[a][6] if rng.random() < 0.7 else None)
+                    if rng.random() < 0.15:
+                        scs[a] = pick_scale(rng)           # the agent starts reporting on another scale, then is retrained
+                    base[a] = self.grid_fp(rng, vocab=base[a][6] if rng.random() < 0.7 else None, sc=scs[a])
                     lines.append(f"show {a} " + " ".join(fp_tokens(base[a])))
                     prof[a] = self.believed_profile([base[a]], (F(0), F(0), F(0)), tol)
                     lines.append(f"train {a}")
@@ -1350,16 +1410,17 @@ class C17(Prop):
         lines = [" ".join(["sys", str(rng.choice([10, 3, 1])), "2", "1/2", str(stab), str(cap)] + rules)]
         agents = [0] if rng.random() < 0.6 else [0, 1]
         base, threat = {}, {}
+        sc = pick_scale(rng)
         for a in agents:
-            base[a] = self.grid_fp(rng)[:9] + (rng.choice([None, None, None, F(1)]),)
+            base[a] = self.grid_fp(rng, sc=sc)[:9] + (rng.choice([None, None, None, F(1)]),)
             th = list(base[a])
             kind = rng.choice(["time", "len", "conf", "many"])
             if kind in ("time", "many"):
-                th[2] = base[a][2] + F(8)
+                th[2] = base[a][2] + F(8) * sc[3]
             if kind in ("len", "many"):
-                th[0] = base[a][0] + F(500)
+                th[0] = base[a][0] + F(500) * sc[4]
             if kind in ("conf", "many"):
-                th[4] = F(0)
+                th[4] = conf_threat(sc, base[a])
             threat[a] = tuple(th)
             lines += [f"reg {a}", f"show {a} " + " ".join(fp_tokens(base[a])), f"train {a}"]
             if rng.random() < 0.5:
@@ -1399,9 +1460,10 @@ class C17(Prop):
         lines = [" ".join(["sys", str(rng.choice([10, 3, 1])), "2", "1/2", "100", str(cap)] + rules)]
         agents = [0, 1]
         base, threat = {}, {}
+        sc = pick_scale(rng)
         for a in agents:
-            base[a] = self.grid_fp(rng, vocab=a + 1)[:9] + (None,)
-            threat[a] = base[a][:2] + (base[a][2] + F(8),) + base[a][3:]
+            base[a] = self.grid_fp(rng, vocab=a + 1, sc=sc)[:9] + (None,)
+            threat[a] = base[a][:2] + (base[a][2] + F(8) * sc[3],) + base[a][3:]
             lines += [f"reg {a}", f"show {a} " + " ".join(fp_tokens(base[a])), f"train {a}"]
         a = rng.choice(agents)
         b = 1 - a
@@ -1453,8 +1515,9 @@ class C17(Prop):
         rules = [f"{rng.choice(LEVELS)}:{rng.choice(CONDS[:-1])}" for _ in range(rng.choice([0, 0, 1, 2]))]
         lines = [" ".join(["sys", str(rng.choice([10, 3, 1])), "2", "1/2", str(stab), str(rng.choice([1000, 2])) ] + rules)]
         a = rng.choice([0, 1])
-        base = self.grid_fp(rng)[:9] + (None,)
-        threat = base[:2] + (base[2] + F(8),) + base[3:]
+        sc = pick_scale(rng)
+        base = self.grid_fp(rng, sc=sc)[:9] + (None,)
+        threat = base[:2] + (base[2] + F(8) * sc[3],) + base[3:]
         lines += [f"reg {a}", f"show {a} " + " ".join(fp_tokens(base)), f"train {a}"]
         remembered = rng.random() < 0.7
         if remembered:
@@ -1492,8 +1555,9 @@ class C17(Prop):
         win, canaries = [], []          # generator's own view of the window: (len, time, conf, err, words, struct, has)
         base_struct = rng.choice([S_PLAIN, S_PLAIN, S_JSON, S_BULLET, S_NUM, S_MD])
         base_words = rng.sample(range(8), rng.choice([1, 2, 3]))
-        base_time = F(rng.choice([2, 4, 8]), 4)
-        base_conf = F(rng.choice([48, 56, 60]), 64)
+        sc = pick_scale(rng)             # the scale the agent's confidences / latencies are recorded on
+        base_time = F(rng.choice([2, 4, 8]), 4) * sc[3]
+        base_conf = F(rng.choice([48, 56, 60]), 64) * sc[1] + sc[2]
         trained = None                  # (profile, fingerprint) the generator believes the agent was trained on
 
         def sdev(vals):
@@ -1524,7 +1588,7 @@ class C17(Prop):
             elif kind == "struct":
                 struct = rng.choice([x for x in (S_PLAIN, S_JSON, S_BULLET, S_NUM, S_MD) if x != base_struct])
             elif kind == "lowconf":
-                cf = F(rng.choice([4, 16]), 64)
+                cf = F(rng.choice([4, 16]), 64) if sc[0] == "unit" else base_conf - abs(sc[1]) * rng.choice([F(1, 2), F(3, 4)])
             elif kind == "silent":
                 out = rng.choice(["none", "empty"])
             elif kind == "brk":
@@ -1532,7 +1596,7 @@ class C17(Prop):
             elif kind == "emptyerr":
                 err = "empty"
             else:
-                tm = base_time + F(rng.choice([0, 0, 1, -1]), 64)
+                tm = base_time + F(rng.choice([0, 0, 1, -1]), 64) * sc[3]
             wl = [w for w in words for _ in range(reps)]
             if struct == S_NUM and out == "text":
                 wl = wl + [WORD_ONE]
@@ -1615,16 +1679,17 @@ class C17(Prop):
         lines = [" ".join(["sys", str(rng.choice([10, 3, 1])), "2", "1/2", str(rng.choice([100, 100, 0, 2])),
                            str(rng.choice([1000, 1000, 2, 1]))] + rules)]
         a = rng.choice([0, 1])
-        base = self.grid_fp(rng)[:9] + (rng.choice([None, None, F(1)]),)
+        sc = pick_scale(rng)
+        base = self.grid_fp(rng, sc=sc)[:9] + (rng.choice([None, None, F(1)]),)
         lines += [f"reg {a}", f"show {a} " + " ".join(fp_tokens(base)), f"train {a}"]
         if cond == "U" or rng.random() < 0.3:
             lines.append(f"updated {a}")
         kind = rng.choice(["one", "one", "many"])
         threat = list(base)
-        threat[2] = base[2] + F(8)
+        threat[2] = base[2] + F(8) * sc[3]
         if kind == "many":
-            threat[0] = base[0] + F(500)
-            threat[4] = F(0)
+            threat[0] = base[0] + F(500) * sc[4]
+            threat[4] = conf_threat(sc, base)
         threat = tuple(threat)
         if rng.random() < 0.5:
             lines.append(f"pflag {a} 1")
@@ -1643,7 +1708,7 @@ class C17(Prop):
             # the remembered threat gets worse under the same two hashes: three violations at once, or canaries failing badly
             worse = list(threat)
             if rng.random() < 0.6:
-                worse[0], worse[4] = base[0] + F(500), F(0)
+                worse[0], worse[4] = base[0] + F(500) * sc[4], conf_threat(sc, base)
             else:
                 worse[9] = rng.choice([F(1, 4), F(0), F(31, 64)])
             lines += [f"show {a} " + " ".join(fp_tokens(tuple(worse))), f"pinspect {a}", f"pinspect {a}"]
@@ -1660,20 +1725,21 @@ class C17(Prop):
         lines = [" ".join(["sys", str(mn), "2", "1/2", "100", str(rng.choice([1000, 2]))]), f"dreg 0 {ws} {mo}"]
         win = []
         words = rng.sample(range(8), 2)
+        sc = pick_scale(rng)
 
         def sdev(vals):
             return F(statistics.stdev([float(v) for v in vals])) if len(vals) > 1 else F(0)
 
         def obs(kind):
-            tm, cf, wl, err = F(1, 2), F(7, 8), [w for w in words for _ in range(2)], "-"
+            tm, cf, wl, err = F(1, 2) * sc[3], F(7, 8) * sc[1] + sc[2], [w for w in words for _ in range(2)], "-"
             if kind == "slow":
-                tm = F(8)
+                tm = F(8) * sc[3]
             elif kind == "err":
                 err = "1"
             elif kind == "vocab":
                 wl = [w for w in range(8) if w not in words][:2]
             elif kind == "lowconf":
-                cf = F(1, 16)
+                cf = F(1, 16) if sc[0] == "unit" else cf - abs(sc[1]) * F(3, 4)
             text = render("text", S_PLAIN, wl)
             win.append((len(text), tm, cf))
             if len(win) > ws:
@@ -1756,35 +1822,45 @@ class C17(Prop):
         # 2. T cell: every subset of the seven baseline checks broken x canary given/absent x manual flag x streak
         #    position, on a fixed profile
         pr = (F(10), F(20), F(1, 2), F(3, 2), F(1, 2), F(1), F(1, 8), [1, 2], [1], F(3, 4))
+        inside = [F(15), F(0), F(1), F(0), F(3, 4), F(0), 1, 1, F(0), F(1)]
+        outside = {0: F(21), 1: F(7, 4), 2: F(1, 4), 3: F(1, 4)}
+        # the same on scales that are not 0..1: confidence in percent with an upper bound above 100 and an error
+        # maximum above 1 (milliseconds, bytes) / log-probabilities (bounds below 0, an interval that straddles 0)
+        pr_pct = (F(10240), F(20480), F(500), F(1500), F(85), F(105), F(3, 2), [1, 2], [1], F(3, 4))
+        in_pct = [F(15000), F(0), F(1000), F(0), F(205, 2), F(0), 1, 1, F(5, 4), F(1)]
+        out_pct = {0: F(20481), 1: F(1501), 2: F(84), 3: F(7, 4)}
+        pr_log = (F(10), F(20), F(1, 2), F(3, 2), F(-1, 4), F(1, 8), F(1, 8), [1, 2], [1], F(3, 4))
+        in_log = [F(15), F(0), F(1), F(0), F(-1, 8), F(0), 1, 1, F(0), F(1)]
+        out_log = {0: F(21), 1: F(7, 4), 2: F(-1, 2), 3: F(1, 4)}
         tc = []
         kinds = range(7)
         subsets = [s for r in range(8) for s in itertools.combinations(kinds, r)]
         if tier == "quick":
             subsets = [s for s in subsets if len(s) <= 2 or len(s) >= 6]
-        for sub in subsets:
-            fp = [F(15), F(0), F(1), F(0), F(3, 4), F(0), 1, 1, F(0), F(1)]
-            if 0 in sub:
-                fp[0] = F(21)
-            if 1 in sub:
-                fp[2] = F(7, 4)
-            if 2 in sub:
-                fp[4] = F(1, 4)
-            if 3 in sub:
-                fp[8] = F(1, 4)
-            if 4 in sub:
-                fp[6] = 9
-            if 5 in sub:
-                fp[7] = 9
-            canaries = [F(5, 8), F(1, 4)] if 6 in sub else [None, F(1), F(3, 4)]
-            for ca in canaries:
-                fp[9] = ca
-                for flag in (False, True):
-                    lines = ["tcell 3 2 " + " ".join(prof_tokens(pr))]
-                    if flag:
-                        lines.append("flag 1")
-                    ins = "inspect " + " ".join(fp_tokens(tuple(fp)))
-                    lines += [ins, ins, ins, "tresetfa", ins, "tresetfa", ins, "flag 1", ins]
-                    tc.append({"lines": lines, "note": "exhaustive tcell"})
+        for prf, ins_, outs_, keep in ((pr, inside, outside, lambda s: True),
+                                       (pr_pct, in_pct, out_pct, lambda s: len(s) <= 1 or len(s) == 7),
+                                       (pr_log, in_log, out_log, lambda s: len(s) <= 1)):
+            for sub in subsets:
+                if not keep(sub):
+                    continue
+                fp = list(ins_)
+                for k in (0, 1, 2, 3):
+                    if k in sub:
+                        fp[{0: 0, 1: 2, 2: 4, 3: 8}[k]] = outs_[k]
+                if 4 in sub:
+                    fp[6] = 9
+                if 5 in sub:
+                    fp[7] = 9
+                canaries = [F(5, 8), F(1, 4)] if 6 in sub else [None, F(1), F(3, 4)]
+                for ca in canaries:
+                    fp[9] = ca
+                    for flag in (False, True):
+                        lines = ["tcell 3 2 " + " ".join(prof_tokens(prf))]
+                        if flag:
+                            lines.append("flag 1")
+                        ins = "inspect " + " ".join(fp_tokens(tuple(fp)))
+                        lines += [ins, ins, ins, "tresetfa", ins, "tresetfa", ins, "flag 1", ins]
+                        tc.append({"lines": lines, "note": "exhaustive tcell"})
         spaces.append({"name": "TCell: subsets of the seven baseline checks x canary x manual flag x streak 1..3 x "
                                "false-alarm resets up to anergy", "cases": tc})
         return spaces
